@@ -281,8 +281,34 @@ def search(ctx):
                     put(targets["transcript"], "valid", valid=("\n".join(lines) + "\n").encode())
                 else:
                     put(targets["transcript"], states["transcript"], valid=(json.dumps(tr_ok) + "\n").encode())
-                states["log"] = rr.pick(["absent", "absent", "dir", "huge"])
-                put(targets["log"], states["log"])
+                states["log"] = rr.pick(["absent", "absent", "dir", "huge", "rotate", "rotate"])
+                bak = targets["log"] + ".1"
+                if os.path.isdir(bak) and not os.path.islink(bak):
+                    shutil.rmtree(bak, ignore_errors=True)
+                elif os.path.lexists(bak):
+                    os.unlink(bak)
+                if states["log"] == "rotate":
+                    # a log over the rotation threshold (1 MiB) x every state of the backup name it is rotated to
+                    os.makedirs(os.path.dirname(targets["log"]), exist_ok=True)
+                    put(targets["log"], "absent")
+                    with open(targets["log"], "wb") as f:
+                        f.write(b"x" * (1024 * 1024 + rr.pick([1, 4096])))
+                    bk = rr.pick(["absent", "file", "dir", "dir-nonempty", "dangling", "readonly-file"])
+                    states["log"] = "rotate:backup=" + bk
+                    if bk == "file":
+                        open(bak, "w").write("old\n")
+                    elif bk == "readonly-file":
+                        open(bak, "w").write("old\n")
+                        os.chmod(bak, 0o400)
+                    elif bk == "dir":
+                        os.makedirs(bak)
+                    elif bk == "dir-nonempty":
+                        os.makedirs(bak)
+                        open(os.path.join(bak, "keep"), "w").write("x")
+                    elif bk == "dangling":
+                        os.symlink(os.path.join(tree.home, "nowhere"), bak)
+                else:
+                    put(targets["log"], states["log"])
                 before = tree.snapshot()
                 try:
                     rc, out, err = tree.run(stdin)
